@@ -2,6 +2,7 @@ import RichModel.Model.Wrap
 import RichModel.Model.Frames
 import RichModel.Model.FramesTree
 import RichModel.Model.FramesColumns
+import RichModel.Model.FramesTitle
 import RichModel.Model.Table
 import RichModel.Gen.TableBoxes
 /-!
@@ -65,6 +66,11 @@ structure Cfg where
   /-- `console.tab_size` (8 unless the console was built otherwise); `Text.__rich_console__` uses
   `console.tab_size or self.tab_size or 8`. -/
   tabSize : Nat := 8
+  /-- as-found code: `Panel` renders its title with `console.render(title_text)`, i.e. at `console.width`; `false` = the code
+  since fix 0e1edf7: at the width the title was aligned to (`console.options.update(width=width - 4)`) -/
+  titleAtConsoleWidth : Bool := false
+  /-- as-found code: a `Rule` without a title ignores its `end`; `false` = the code since fix a442cbd -/
+  ruleNoTitleEnd : Bool := false
   poison : List Seg := []
 
 /-! ## Text (text.py:504-532) -/
@@ -148,7 +154,68 @@ def emptyText (cfg : Cfg) : T := Text.new cfg.wv.text [] [0]
 
 def ruleConsoleL (cfg : Cfg) (o : RuleOpts) (opts : Opts) (w : Nat) : List Seg :=
   let pe := ruleText cfg.cw cfg.env cfg.v o (w : Int)
-  textConsole cfg (Text.new cfg.wv.text pe.1 [0] [] none none none pe.2) opts w
+  -- without a title `ruleText` answers the default end (the as-found code); since fix a442cbd `self.end` is used
+  let e := if o.title.isEmpty && !cfg.ruleNoTitleEnd then o.endS else pe.2
+  textConsole cfg (Text.new cfg.wv.text pe.1 [0] [] none none none e) opts w
+
+/-! ## Panel: C08's `panelConsole` with the title as a real `Text` (C08 `Model/FramesTitle.lean`: `panelTitleText`) rendered by
+`textConsole`, so that any title is modelled: tabs, any whitespace, wider than the console -/
+
+/-- `Panel._title` as a `Text`; `.ok none` = no title (`None`, `""`) -/
+def panelTitleL (cfg : Cfg) (title : List Char) : Except RichModel.PyErr (Option T) :=
+  if title.isEmpty then .ok none else panelTitleText cfg.wv.text true (Text.new cfg.wv.text title [0])
+
+/-- `Panel.__rich_console__` (panel.py:108-160); `none` = poison (bad padding tuple, unknown box, a raising `expand_tabs`). -/
+def panelConsoleL (cfg : Cfg) (o : PanelOpts) (c : Ch) (w : Int) : Option (List Seg) :=
+  match unpackPad o.padding with
+  | .error _ => none
+  | .ok p =>
+    let inner := panelInner cfg.cw cfg.v p c
+    match boxAt (substituteBox cfg.env (o.safeBox.getD cfg.env.safeBox) o.box) with
+    | none => none
+    | some box =>
+      match panelTitleL cfg o.title with
+      | .error _ => none
+      | .ok title =>
+        let width0 : Int := match o.width with | none => w | some pw => min w pw
+        let childW0 : Int := if o.expand then width0 - 2 else fitWidth cfg.v (inner.measureAt (width0 - 2)).maximum
+        let childW : Int := match title with
+          | none => childW0
+          | some t => min (w - 2) (max childW0 ((cellLen cfg.cw t.plain : Int) + 2))
+        let width := childW + 2
+        let lines := inner.linesAt cfg.cw childW true
+        let top : List Seg := match title with
+          | none => [seg (boxTop box (width - 2))]
+          | some t =>
+            let aligned := t.align cfg.wv.text cfg.cw (toAlignMethod o.titleAlign) (width - 4) box.top
+            -- `Panel._title` set `end = ""`, `no_wrap = True` and left `overflow` alone; `align` keeps all three (the record update
+            -- below changes nothing: it only makes those three fields syntactically visible to the proofs)
+            let aligned : T := { aligned with endStr := [], noWrap := some true, overflow := none }
+            let rw : Int := if cfg.titleAtConsoleWidth then (cfg.env.consoleWidth : Int) else width - 4
+            [seg [box.topLeft, box.top]] ++ (if rw < 1 then [] else textConsole cfg aligned {} rw.toNat)
+              ++ [seg [box.top, box.topRight]]
+        some (top ++ [nl]
+          ++ lines.flatMap (fun l => [seg [box.midLeft]] ++ l ++ [seg [box.midRight]] ++ [nl])
+          ++ [seg (boxBottom box (width - 2)), nl])
+
+/-- `Panel.__rich_measure__` (panel.py:162-179): `measure_renderables([child, title])`; `none` = poison -/
+def panelRichMeasureL (cfg : Cfg) (o : PanelOpts) (c : Ch) (maxWidth : Int) : Option Measurement :=
+  match unpackPad o.padding with
+  | .error _ => none
+  | .ok p =>
+    match panelTitleL cfg o.title with
+    | .error _ => none
+    | .ok title =>
+      let padding : Int := p.left + p.right
+      match o.width with
+      | some pw => some ⟨pw, pw⟩
+      | none =>
+        let avail := maxWidth - padding - 2
+        let mc := (c.measureAt avail).maximum
+        let m := match title with
+          | none => mc
+          | some t => max mc (if avail < 1 then 0 else (textMeasure cfg.cw t avail.toNat).maximum)
+        some ⟨m + padding + 2, m + padding + 2⟩
 
 /-! ## Table (table.py) at the level of segments -/
 
@@ -431,9 +498,9 @@ def measure (cfg : Cfg) : R → Nat → Measurement
   | .str t, w => textMeasure cfg.cw t w
   | .padding p _ c, w => Measurement.getPost (w : Int) (some (paddingRichMeasure p (mCh (fun x => measure cfg c x)) (w : Int)))
   | .panel o c, w =>
-    match panelRichMeasure cfg.cw o (mCh (fun x => measure cfg c x)) (w : Int) with
-    | .ok m => Measurement.getPost (w : Int) (some m)
-    | .error _ => poisonMeasure cfg w
+    match panelRichMeasureL cfg o (mCh (fun x => measure cfg c x)) (w : Int) with
+    | some m => Measurement.getPost (w : Int) (some m)
+    | none => poisonMeasure cfg w
   | .align _ c, w => Measurement.getPost (w : Int) (some (alignRichMeasure (mCh (fun x => measure cfg c x)) (w : Int)))
   | .constrain k c, w =>
     Measurement.getPost (w : Int) (some (constrainRichMeasure (k.map Int.ofNat) (mCh (fun x => measure cfg c x)) (w : Int)))
@@ -479,9 +546,9 @@ def render (cfg : Cfg) : R → Opts → Nat → List Seg
   | .str t, o, w => textConsole cfg t o w
   | .padding p e c, o, w => paddingConsole cfg.cw cfg.v p e ⟨fun x => measure cfg c x, fun x => render cfg c o x⟩ (w : Int)
   | .panel po c, o, w =>
-    match panelConsole cfg.cw cfg.env cfg.v po ⟨fun x => measure cfg c x, fun x => render cfg c o x⟩ (w : Int) with
-    | .ok (some s) => s
-    | _ => cfg.poison
+    match panelConsoleL cfg po ⟨fun x => measure cfg c x, fun x => render cfg c o x⟩ (w : Int) with
+    | some s => s
+    | none => cfg.poison
   | .align ao c, o, w => alignConsole cfg.cw cfg.env cfg.v ao ⟨fun x => measure cfg c x, fun x => render cfg c o x⟩ (w : Int)
   | .constrain k c, o, w => constrainConsole (k.map Int.ofNat) ⟨fun x => measure cfg c x, fun x => render cfg c o x⟩ (w : Int)
   | .styled c, o, w => render cfg c o w
